@@ -13,6 +13,7 @@ import gen_linemap
 import kani_run
 import side_unit
 import session_probe
+import normalize_probe
 from common import VERIF, REPO, scratch, Undecided, write_evidence, write_replay, load_known_findings, finish, seed
 from rustcut import AnchorLost
 
@@ -103,6 +104,7 @@ def main(prop, tier):
         cans = cans[:1]
     jobs = int(os.environ.get('VERIF_JOBS', '15'))
     deds, ded_can = [], []
+    nprobe = None
     sess_results = []
     probe = None
     try:
@@ -117,7 +119,10 @@ def main(prop, tier):
                 fdcs += [pool.submit(side_unit.canary, du, c, i) for i, c in enumerate(side_unit.UNITS[du]['canaries'][:1 if tier == 'quick' else None])]
             # native probe of the real Server: C15 looks at the whole-notification scenarios, C13 at the generated edit histories (K6)
             fprobe = pool.submit(session_probe.run_probe, REPO, 40 if tier == 'quick' else 400, seed()) if prop in ('C13', 'C15') else None
+            # bounded native stand-in for LineMap::normalize at a much larger bound than CBMC reaches (C14 / C13)
+            fnorm = pool.submit(normalize_probe.run_probe, REPO, 6 if tier == 'quick' else 8) if prop in ('C13', 'C14') else None
             results = kani_run.run_many(d, names, FLAGS, 2400, jobs=jobs)
+            nprobe = fnorm.result() if fnorm else None
             probe = fprobe.result() if fprobe else None
             if probe and probe.get('scenarios'):
                 mine_sc = (lambda n: n.startswith('history_')) if prop == 'C13' else (lambda n: not n.startswith('history_'))
@@ -185,6 +190,16 @@ def main(prop, tier):
             path = write_replay(prop, oblig, 'crates/glas/src/server.rs (Server::on_did_change)', 'native probe on a scratch copy of the real crate (bounded stand-in)',
                                 json.dumps(probe['symptoms'], indent=1), wit, './check %s --replay <this file>' % prop)
             violations.append((path, True))
+    if nprobe and nprobe['status'] == 'failed':
+        oblig = 'normalize-probe :: LineMap::normalize :: %s' % re.sub(r'(of|in|for the line map of|offset) .*$', '', nprobe['symptom'])[:120].strip()
+        known = next((k for k in kf.get('findings', []) if k.get('property') == prop and k.get('obligation') == oblig), None)
+        if known:
+            known_lines.append(known.get('what', oblig))
+        else:
+            wit = {'kind': 'normalize-probe', 'observed': nprobe['symptom'], 'bound': nprobe['bound'], 'source': 'tools/normalize_probe/verif_normalize.rs'}
+            path = write_replay(prop, oblig, 'crates/glas/src/vfs.rs (LineMap::normalize and the query functions)', 'native enumeration on a scratch copy of the real crate (bounded stand-in)',
+                                nprobe['symptom'], wit, './check %s --replay <this file>' % prop)
+            violations.append((path, True))
     for ded in [x for x in deds if x['status'] == 'failed']:
         # failed obligations of the deductive part; a concrete failing input, when there is one, comes from the Kani harnesses above
         seen_fn = set()
@@ -229,6 +244,8 @@ def main(prop, tier):
            'canaries': can + ded_can, 'checker_cmd': results[0]['cmd'] if results else ''}
     if probe:
         cov['session_probe'] = probe
+    if nprobe:
+        cov['normalize_probe'] = nprobe
     if deds:
         cov['deductive_part'] = deds[0] if len(deds) == 1 else {'units': deds, 'status': 'verified' if all(x['status'].startswith('verified') for x in deds) else ('failed' if any(x['status'] == 'failed' for x in deds) else 'undecided')}
         if all(x['status'] == 'verified' for x in deds):
@@ -238,10 +255,13 @@ def main(prop, tier):
         'server.rs::on_did_change (tokio / async-lsp) is not buildable under Kani: the per-change loop is covered only by the induction argument of DESIGN.md 3.4 (K6)',
         'Slab, Arc, text-size, anyhow are the real crates, executed symbolically; arithmetic is CBMC machine arithmetic with overflow checks (debug-build semantics)',
         'alloc::fmt::format is stubbed in harnesses that construct anyhow errors (message text is irrelevant to the contracts)'] + (
+        ['native normalize probe (bounded, real crate glas built with cargo test --offline): every document of <= 6 (quick) / 8 (thorough) characters over {a, LF, CR, 2-, 3-, 4-byte char} through the real LineMap::normalize - stored text without CR, LineMap::wf and LineMap::bnd (the assumptions of the Verus unit lmap), the reference table, and at every character boundary the client\'s (line, column), round trip and strict monotonicity; execution of enumerated inputs, not a proof'] if nprobe else []) + (
         ['native session probe (bounded, real crate glas built with cargo test --offline): whole-notification scenarios (C15: several changes, an earlier one rejected, mid-surrogate, multi-byte) and generated edit histories compared with the LSP reference client (C13, clause K6: 40 histories in the quick tier, 400 in the thorough tier, seeded by VERIF_SEED) through the real Server::on_did_open / on_did_change; not a proof - server.rs is outside both verifiers'] if probe else [])
     write_evidence(prop, tier, 'model_checking', cov, assumptions, time.time() - t0, len(violations), {'known_findings_matched': known_lines})
     if probe and probe['status'] == 'undecided' and not violations:
         finish(prop, [], known_lines, 'native session probe not decided: %s' % probe.get('why', '')[:600])
+    if nprobe and nprobe['status'] == 'undecided' and not violations:
+        finish(prop, [], known_lines, 'native normalize probe not decided: %s' % nprobe.get('why', '')[:600])
     if und and not violations:
         finish(prop, [], known_lines, '%d harness(es) not decided (timeout / CBMC error), e.g. %s: %s' % (len(und), und[0]['harness'], und[0]['raw_tail'][-400:]))
     if guard and not violations:
@@ -309,6 +329,10 @@ def undecided(prop, tier, t0, msg):
 def replay(prop, path):
     r = json.load(open(path))
     w = r.get('witness')
+    if w and w.get('kind') == 'normalize-probe':
+        pr = normalize_probe.run_probe()
+        print('replay on the working tree: normalize probe: %s %s' % (pr['status'], pr.get('symptom', '')))
+        return 1 if pr['status'] == 'failed' else 0
     if w and w.get('kind') == 'session-probe':
         pr = session_probe.run_probe()
         st = pr.get('scenarios', {}).get(w['scenario'])
